@@ -134,7 +134,9 @@ var historyDocs = univ.Js(
 	`{"a":{"b":{"c":1}},"b":2}`, `null`, `{"a":"x","b":"y"}`, `[{"k":1},{"k":"a"}]`,
 	`{"c":1}`, `{"d":[2],"a":[1,2],"b":[1,3]}`,
 	`{"a":[9,8,7,6,5,4,3,2,1,0],"b":["j","i","h","g","f","e","d","c","b","a"]}`,
-	`{"a":[{"k":1,"t":0},{"k":"x","t":1},{"k":2,"t":"y"}],"b":[1,"a"]}`, `[9,8,7,6,5,4,3,2,1,0,11,12]`, `{"a":{},"b":{"x":1,"y":[2]},"c":[]}`, `{"größe":1,"名前":2,"a١":3,"é":4,"ǅ":5,"a":6}`,
+	`{"a":[{"k":1,"t":0},{"k":"x","t":1},{"k":2,"t":"y"}],"b":[1,"a"]}`, `[9,8,7,6,5,4,3,2,1,0,11,12]`, `{"a":{},"b":{"x":1,"y":[2]},"c":[]}`,
+	`{"a":[[{"k":2,"t":0},{"k":1,"t":1}]],"b":[[3,1,2]]}`, `[[3,1,2]]`, `{"a":[{"k":1},null,{"k":2}],"b":[null,"b","a"]}`, `{"a":[{"k":1,"t":"x"}],"b":["b"]}`,
+	`{"größe":1,"名前":2,"a١":3,"é":4,"ǅ":5,"a":6}`,
 )
 
 func resKey(res interface{}, err error, pn *impl.Panic) string {
